@@ -32,6 +32,11 @@ CLAIMED = {
         text="TLC checks that a due wake-up is always delivered (fair) on the abstract spec; recorded histories of condition_variable and condition_variable_any (plain, predicate, timed, stop-token forms; pika tasks and OS threads; notifiers with and without the user lock; delays injected at the cv.* hooks between unlock and suspend) must be behaviours of the spec: a waiter that is owed a wake-up but stays blocked, a timeout reported for a notified waiter, a wrong predicate result or a return without the user lock is rejected",
         note="sequential consistency; sampled schedules; spurious wake-ups accepted; one open finding (timed wait on a plain OS thread deadlocks when notified) is listed in known_findings.json and only exercised by dedicated runs",
         design="5/C07"),
+    "C02": dict(
+        technique="TLA+ fine-grained spec WakeImpl of the thread state word / run queue / set_thread_state / set_active_state protocol model-checked by TLC (safety + liveness, broken variants must fail) + TLC trace validation of suspend/resume histories from the real runtime with widened resume-before-suspend windows and a pool-state quiescence watchdog",
+        text="TLC explores every interleaving of target, 2 workers, wakers (incl. a duplicate waker per round) and helper tasks on the state-word protocol and proves no-lost-wake-up, single-runner and termination, and shows that the two ways of breaking the helper's abort rule lose a wake-up; the real runtime is then driven through the same hand-off (bare suspend/resume, condition variables, semaphores) on 8 scheduling policies with delays injected at the hooks between unlock, context switch and store_state, and every history must satisfy the abstract rule that a task whose wake-up was issued runs again (a watchdog reads the pool's pending/active/staged/suspended counts)",
+        note="sequential consistency; the schedules of the real runtime are sampled (hook-widened), only the model is exhaustive; F is bound to the code through the hooked steps' effects (histories), not yet by step-by-step trace validation",
+        design="5/C02"),
 }
 
 NOT_YET = {}
